@@ -75,12 +75,13 @@ static uint32_t sym_twoDBC_rank_of(parsec_data_collection_t * desc, ...)
     n = va_arg(ap, unsigned int);
     va_end(ap);
 
+    /* Bounds are those of the sub-matrix: test before translating */
+    assert( m < dc->super.mt );
+    assert( n < dc->super.nt );
+
     /* Offset by (i,j) to translate (m,n) in the global matrix */
     m += dc->super.i / dc->super.mb;
     n += dc->super.j / dc->super.nb;
-
-    assert( m < dc->super.mt );
-    assert( n < dc->super.nt );
 
     assert( (dc->uplo == PARSEC_MATRIX_LOWER && m>=n) ||
             (dc->uplo == PARSEC_MATRIX_UPPER && n>=m) );
@@ -136,15 +137,17 @@ static parsec_data_t* sym_twoDBC_data_of(parsec_data_collection_t *desc, ...)
     n = (int)va_arg(ap, unsigned int);
     va_end(ap);
 
+    /* Bounds are those of the sub-matrix: test before translating */
+    assert( m < dc->super.mt );
+    assert( n < dc->super.nt );
+
     /* Offset by (i,j) to translate (m,n) in the global matrix */
     m += dc->super.i / dc->super.mb;
     n += dc->super.j / dc->super.nb;
 
-    assert( m < dc->super.mt );
-    assert( n < dc->super.nt );
-
 #if defined(DISTRIBUTED)
-    assert(desc->myrank == desc->rank_of(desc, m, n));
+    /* (m,n) are already translated: rank_of expects sub-matrix coordinates */
+    assert(desc->myrank == desc->rank_of(desc, m - dc->super.i / dc->super.mb, n - dc->super.j / dc->super.nb));
 #endif
     assert( dc->super.storage == PARSEC_MATRIX_TILE );
     assert( (dc->uplo == PARSEC_MATRIX_LOWER && m>=n) ||
@@ -192,15 +195,17 @@ static int32_t sym_twoDBC_vpid_of(parsec_data_collection_t *desc, ...)
     n = (int)va_arg(ap, unsigned int);
     va_end(ap);
 
+    /* Bounds are those of the sub-matrix: test before translating */
+    assert( m < dc->super.mt );
+    assert( n < dc->super.nt );
+
     /* Offset by (i,j) to translate (m,n) in the global matrix */
     m += dc->super.i / dc->super.mb;
     n += dc->super.j / dc->super.nb;
 
-    assert( m < dc->super.mt );
-    assert( n < dc->super.nt );
-
 #if defined(DISTRIBUTED)
-    assert(desc->myrank == desc->rank_of(desc, m, n));
+    /* (m,n) are already translated: rank_of expects sub-matrix coordinates */
+    assert(desc->myrank == desc->rank_of(desc, m - dc->super.i / dc->super.mb, n - dc->super.j / dc->super.nb));
 #endif
     assert( (dc->uplo == PARSEC_MATRIX_LOWER && m>=n) ||
             (dc->uplo == PARSEC_MATRIX_UPPER && n>=m) );
